@@ -134,6 +134,11 @@ func c09Run(e *core.Env) {
 		})
 		e.SetBound(fmt.Sprintf("journal_depth_alphabet%d", len(pl.alpha)), pl.n)
 	}
+	if e.Take() {
+		// print sorts each day; whether that is properly ordered with the stages that read
+		// the day is decided by the race detector on free-running executions
+		raceTier(e, core.Pick(e, 6, 30), "C09", "pipe-print")
+	}
 }
 
 func c09Replay(e *core.Env, data json.RawMessage) (bool, string) {
